@@ -502,6 +502,33 @@ def c15b_case(rng, idx, params):
             "sample": {"spec": spec, "n": n, "life": life} if idx < 2 else None}
 
 
+def c15b_window_case(rng, idx, params):
+    """every indicator kind on an evenly spaced stream fed one or two candles at a time, the lifespan covering a generous multiple
+    of its periods: in the steady state every append pops exactly as many candles as it adds, list positions shift under the
+    indicator, and every look-back stays inside the window (proved for the leaf kinds: C15b_leaf)"""
+    spec = specs.gen_spec(rng, max_period=12)
+    biggest = max([v for k, v in spec.items() if k in ("period", "fast", "slow", "signal", "smooth", "smoothk") and isinstance(v, int)] or [1])
+    warm = 4 * biggest + 6
+    n = 2 * warm + rng.randint(6, 30)
+    step = rng.choice([1, 10, 60, 300])
+    stream, meta = gen.gen_stream(rng, n, price_style=gen.style_for(rng, spec["kind"]), ts_style="regular", step=step)
+    life = (warm + rng.randint(0, 3)) * step + rng.randint(0, step - 1)
+    chunks, left = [], n
+    while left > 0:
+        c = min(left, rng.choice([1, 1, 1, 2]))
+        chunks.append(c)
+        left -= c
+    spec = dict(spec, life=life)
+    scn = {"spec": spec, "stream": stream, "init": 0, "chunks": chunks}
+    bad = c15b_check(scn)
+    viol = None
+    if bad:
+        viol = {"scenario": scn, **bad, "signature": f"C15:{kind_of(spec)}:{bad['clause']}"}
+    meta.update({"kind": kind_of(spec), "window_candles": warm})
+    return {"nontrivial": True, "key": hash(str(scn)), "violation": viol, "meta": meta,
+            "sample": {"spec": spec, "n": n, "life": life} if idx < 1 else None}
+
+
 def c15b_replay(w):
     bad = c15b_check(w["scenario"])
     return {"fails": bad is not None, "detail": bad}
